@@ -654,6 +654,10 @@ class NpyArray:
 
     def __setitem__(self, sl, value):
         """Set data at slice `sl` to `value`."""
+        # A header prepared by an earlier append must reach the file before data is changed in
+        # place, otherwise a crash could leave the new data under the old (shorter) length
+        if self._header_bytes_to_write:
+            self.flush()
         self.memmap[sl] = value
 
     def __len__(self):
